@@ -2,6 +2,7 @@ import torch.nn as nn
 import pywt
 import pytorch_wavelets.dwt.lowlevel as lowlevel
 import torch
+from pytorch_wavelets._verif import point as _vp
 
 
 class DWT1DForward(nn.Module):
@@ -53,6 +54,7 @@ class DWT1DForward(nn.Module):
 
         # Do a multilevel transform
         for j in range(self.J):
+            _vp('DWT1DForward.level', level=j+1, N=x0.shape[-1], mode=self.mode)
             x0, x1 = lowlevel.AFB1D.apply(x0, self.h0, self.h1, mode)
             highs.append(x1)
 
@@ -109,6 +111,7 @@ class DWT1DInverse(nn.Module):
                 x1 = torch.zeros_like(x0)
 
             # 'Unpad' added signal
+            _vp('DWT1DInverse.level', lo=x0.shape[-1], hi=x1.shape[-1], mode=self.mode)
             if x0.shape[-1] > x1.shape[-1]:
                 x0 = x0[..., :x1.shape[-1]]
             x0 = lowlevel.SFB1D.apply(x0, x1, self.g0, self.g1, mode)
